@@ -2,10 +2,12 @@ import NfcVerif.Lemmas.TlvSync
 /-!
 # C02 - an interrupted NDEF write never leaves a corrupt message (Type 1 and Type 2 Tag)
 
-A write is the concatenation of the command lists of its three `synchronize()` calls; a crash
-point is a prefix length `k` of that list; the tag memory after the crash is
-`apply m (cmds.take k)`.  Model: `NfcVerif.Model.Tlv`, the length-field write (phase 3) AS FOUND
-in `tt2.py:263-269` / `tt1.py:241-247` (finding F2 is open).
+A write is the concatenation of the command lists of its `synchronize()` calls; a crash point
+is a prefix length `k` of that list; the tag memory after the crash is `apply m (cmds.take k)`.
+Model: `NfcVerif.Model.Tlv` with the length-field write as REPAIRED by fixes/C02 (F2): the
+bytes `hi`/`lo` of a 3-byte length field that lie in a later write unit than `FF` are prepared
+while the first length byte is still `00` (`phase3a`).  The as-found behaviour is kept as
+`writeCmdsAsFound` and shown to be unsafe at the end of this file.
 -/
 namespace NfcVerif.C02
 open NfcVerif NfcVerif.Tlv
@@ -16,27 +18,19 @@ capacity and flags.  (For Type 1/2 the alternatives "no NDEF" / "not readable" n
 def Outcome (L : Layout) (new : Bytes) (r : Py (Option Layout)) : Prop :=
   r = .ok (some L) ∨ r = .ok (some { L with ndef := [] }) ∨ r = .ok (some { L with ndef := new })
 
-/-- the full statement of the property for the Type 1/2 model -/
-def CutSafe : Prop :=
-  ∀ (c : Cfg) (m : Bytes) (L : Layout) (data : Bytes), readNdef c m = .ok (some L) → WF c m L →
-    (data.length : Int) ≤ L.cap → ∀ k, Outcome L data (readNdef c (apply m ((setOctets c m L data).cmds.take k)))
-
-/-- **Cut safety (partial).**  For every well-formed image, every message up to the capacity and
-every prefix of the write-command list the re-walk sees old, empty or new - never a mixture -
-PROVIDED the new length field reaches the tag in one command (`OneCmd`: the message is shorter
-than 255 bytes, or the three bytes `FF hi lo` lie inside one write unit).  Every alignment of
-the TLV in the write unit, unit 1, 4 or 8, old message in either length format.
-Missing part: 3-byte length field that straddles two write units - false on the code as found,
-see `t12_cut_counterexample`. -/
-theorem t12_cut_safe_partial (c : Cfg) (m : Bytes) (L : Layout) (data : Bytes)
-    (hread : readNdef c m = .ok (some L)) (hwf : WF c m L) (hcap : (data.length : Int) ≤ L.cap)
-    (hone : OneCmd c L data.length) (k : Nat) :
+/-- **Cut safety, full.**  For every well-formed image (any layout, any alignment of the NDEF TLV
+in the write unit, unit 1, 4 or 8, old message in either length format), every message up to
+the capacity (1-byte and 3-byte length format) and EVERY prefix length `k` of the write-command
+list, a re-walk of the tag memory after the first `k` commands sees the old message, an empty
+message or the complete new message - never a mixture. -/
+theorem t12_cut_safe (c : Cfg) (m : Bytes) (L : Layout) (data : Bytes)
+    (hread : readNdef c m = .ok (some L)) (hwf : WF c m L) (hcap : (data.length : Int) ≤ L.cap) (k : Nat) :
     Outcome L data (readNdef c (apply m ((setOctets c m L data).cmds.take k))) := by
   by_cases hw : L.writeable = true
   · have hs : setOctets c m L data = writeCmds c m L data := by
       unfold setOctets; rw [if_neg (by simp [hw]), if_neg (by omega)]
     rw [hs]
-    rcases cut_safe c m L data ((readNdef_some c m L).1 hread) hwf hcap hone k with h | h | h
+    rcases cut_safe c m L data ((readNdef_some c m L).1 hread) hwf hcap k with h | h | h
     · exact Or.inl ((readNdef_some c _ _).2 h)
     · exact Or.inr (Or.inl ((readNdef_some c _ _).2 h))
     · exact Or.inr (Or.inr ((readNdef_some c _ _).2 h))
@@ -47,63 +41,63 @@ theorem t12_cut_safe_partial (c : Cfg) (m : Bytes) (L : Layout) (data : Bytes)
     exact Or.inl (by simpa [apply] using hread)
 
 /-- After ANY prefix of ANY write-back (`synchronize()`), every byte of the tag memory holds its
-old or its new value, for every unit size (the basis of the theorem above; it also holds for the
-straddling case, where it is not enough). -/
+old or its new value, for every unit size. -/
 theorem t12_prefix_mixture (u : Nat) (m m' : Bytes) (hl : m.length = m'.length) (k : Nat) :
     let img := apply m ((diffUnits u m m').take k)
     img.length = m.length ∧ ∀ x : Nat, img[x]? = m[x]? ∨ img[x]? = m'[x]? :=
   prefix_mix u m m' hl k
 
-/-! ## The missing part is false on the code as found (F2)
+/-- ... more precisely, the new image below a unit boundary and the old image from there on
+(commands go out in ascending order). -/
+theorem t12_prefix_threshold (u : Nat) (hu : 0 < u) (m m' : Bytes) (hl : m.length = m'.length) (k : Nat) :
+    ∃ j, ∀ x : Nat, (apply m ((diffUnits u m m').take k))[x]? = if x < j * u then m'[x]? else m[x]? :=
+  prefix_threshold u hu m m' hl k
 
-Type 2 Tag, 304 byte, one NULL TLV in front of the NDEF TLV (offset 17): the length bytes
-`FF | hi lo`... here `FF 00 | FF` occupy bytes 18, 19 (page 4) and 20 (page 5).  Old message
-`AA BB` (byte 20 = `BB`), new message 255 bytes.  The write is 68 commands; after the 67th
-(page 4 = `00 03 FF 00` written, page 5 not yet) the length field reads `FF 00 BB`: a
-187-byte message made of the first 187 new bytes. -/
+/-! ## Non-vacuity and the two straddling alignments
+
+Type 2 Tag, 304 byte.  `cxM`: one NULL TLV in front, NDEF TLV at offset 17: length bytes at
+18, 19 (page 4) and 20 (page 5): alignment `FF hi | lo`.  `zM`: three NULL TLVs, NDEF TLV at 18:
+length bytes 19 (page 4) and 20, 21 (page 5): alignment `FF | hi lo`.  Old message `AA BB`. -/
 def cxM : Bytes :=
   List.replicate 12 0 ++ [0xE1, 0x10, 36, 0] ++ [0, 3, 2, 0xAA, 0xBB, 0xFE] ++ List.replicate 282 0
 def cxL : Layout :=
   { off := 17, skip := [], areaEnd := 304, cap := 283, readable := true, writeable := true, ndef := [0xAA, 0xBB] }
 def cxD : Bytes := List.replicate 255 7
 
-theorem t12_cut_counterexample :
-    readNdef t2Cfg cxM = .ok (some cxL) ∧ WF t2Cfg cxM cxL ∧ (cxD.length : Int) ≤ cxL.cap
-    ∧ ¬ OneCmd t2Cfg cxL cxD.length
-    ∧ (setOctets t2Cfg cxM cxL cxD).cmds.length = 68
-    ∧ readNdef t2Cfg (apply cxM ((setOctets t2Cfg cxM cxL cxD).cmds.take 67))
-        = .ok (some { cxL with ndef := List.replicate 187 7 }) := by
+def zM : Bytes :=
+  List.replicate 12 0 ++ [0xE1, 0x10, 36, 0] ++ [0, 0, 3, 2, 0xAA, 0xBB, 0xFE] ++ List.replicate 281 0
+def zL : Layout :=
+  { off := 18, skip := [], areaEnd := 304, cap := 282, readable := true, writeable := true, ndef := [0xAA, 0xBB] }
+
+example : readNdef t2Cfg cxM = .ok (some cxL) ∧ WF t2Cfg cxM cxL ∧ (cxD.length : Int) ≤ cxL.cap := by
+  decide +kernel
+example : readNdef t2Cfg zM = .ok (some zL) ∧ WF t2Cfg zM zL ∧ (cxD.length : Int) ≤ zL.cap := by
+  decide +kernel
+example : ∀ k, Outcome cxL cxD (readNdef t2Cfg (apply cxM ((setOctets t2Cfg cxM cxL cxD).cmds.take k))) :=
+  fun k => t12_cut_safe t2Cfg cxM cxL cxD (by decide +kernel) (by decide +kernel) (by decide +kernel) k
+/-- `FF hi | lo`: `lo` goes out in a command of its own (page 5 = `FF 07 07 07`) while the first
+length byte is 0, the last command is page 4 with `FF 00`: 68 commands, after 67 the reader still
+sees an empty message. -/
+example : (setOctets t2Cfg cxM cxL cxD).cmds.length = 68
+    ∧ (setOctets t2Cfg cxM cxL cxD).cmds.getLast? = some (16, [0, 3, 0xFF, 0])
+    ∧ readNdef t2Cfg (apply cxM ((setOctets t2Cfg cxM cxL cxD).cmds.take 67)) = .ok (some { cxL with ndef := [] }) := by
+  decide +kernel
+/-- `FF | hi lo`: old value bytes at 20, 21 are zeroed with the data, then page 4 (`FF`), then
+page 5 (`00 FF`): between the last two commands the field reads `FF 00 00` = empty. -/
+example : readNdef t2Cfg (apply zM ((setOctets t2Cfg zM zL cxD).cmds.take
+      ((setOctets t2Cfg zM zL cxD).cmds.length - 1))) = .ok (some { zL with ndef := [] })
+    ∧ ((setOctets t2Cfg zM zL cxD).cmds.drop ((setOctets t2Cfg zM zL cxD).cmds.length - 2)).map Prod.fst = [16, 20] := by
   decide +kernel
 
-/-- hence the unrestricted statement does not hold for the code as found -/
-theorem t12_cut_safe_false : ¬ CutSafe := by
-  intro h
-  obtain ⟨h1, h2, h3, _, _, h6⟩ := t12_cut_counterexample
-  have := h t2Cfg cxM cxL cxD h1 h2 h3 67
-  rw [h6] at this
-  have hlen : ∀ r : Py (Option Layout), r = .ok (some { cxL with ndef := List.replicate 187 7 }) →
-      (match r with | .ok (some l) => l.ndef.length | _ => 0) = 187 := by
-    intro r hr; subst hr; exact List.length_replicate
-  rcases this with e | e | e
-  · have h2 : (2 : Nat) = 187 := hlen _ e.symm
-    omega
-  · have h2 : (0 : Nat) = 187 := hlen _ e.symm
-    omega
-  · have h2 : (List.replicate 255 7).length = 187 := hlen _ e.symm
-    rw [List.length_replicate] at h2
-    omega
+/-! ## The code as found (before fixes/C02) was not cut safe (F2)
 
-/-! ## Non-vacuity of the partial theorem: an unaligned 1-byte case and an aligned 3-byte case -/
-example : OneCmd t2Cfg cxL 254 := by decide +kernel
-example : ∀ k, k ≤ 68 → Outcome cxL (List.replicate 254 7)
-    (readNdef t2Cfg (apply cxM ((setOctets t2Cfg cxM cxL (List.replicate 254 7)).cmds.take k))) :=
-  fun k _ => t12_cut_safe_partial t2Cfg cxM cxL _ (by decide +kernel) (by decide +kernel) (by decide +kernel)
-    (by decide +kernel) k
-/-- NDEF TLV at offset 16: `FF hi lo` in bytes 17..19, one page -/
-def alM : Bytes :=
-  List.replicate 12 0 ++ [0xE1, 0x10, 36, 0] ++ [3, 2, 0xAA, 0xBB, 0xFE] ++ List.replicate 283 0
-def alL : Layout :=
-  { off := 16, skip := [], areaEnd := 304, cap := 284, readable := true, writeable := true, ndef := [0xAA, 0xBB] }
-example : readNdef t2Cfg alM = .ok (some alL) ∧ WF t2Cfg alM alL ∧ OneCmd t2Cfg alL 255 := by decide +kernel
+On `cxM` the as-found write is 68 commands; after the 67th (page 4 = `00 03 FF 00` written,
+page 5 still holding the old byte `BB` at 20) the length field reads `FF 00 BB`: a 187-byte
+message made of the first 187 new bytes. -/
+example :
+    (writeCmdsAsFound t2Cfg cxM cxL cxD).cmds.length = 68
+    ∧ readNdef t2Cfg (apply cxM ((writeCmdsAsFound t2Cfg cxM cxL cxD).cmds.take 67))
+        = .ok (some { cxL with ndef := List.replicate 187 7 }) := by
+  decide +kernel
 
 end NfcVerif.C02
